@@ -18,7 +18,7 @@ ORACLES = ["c20"]
 
 def run(ctx):
     histcheck.run_property(ctx, PROFILES, ORACLES, n_quick=56, n_thorough=900, nsteps=32 if ctx.quick() else 45,
-                           own_oracle="c20")
+                           own_oracle="c20", with_extras=True)
     stg = common.build_stg()
     known = histcheck.load_known("C20")
     n = 1400 if ctx.quick() else 40000
